@@ -251,5 +251,8 @@ def run(ctx):
 
     # a change is published only if the item it touched is collected as dirty on every path of run_handler, including the paths on which a
     # consequence handler fails and the agent carries on (C06.R1)
+    # the value coalesced behind a busy writer is sent with its synced marker whatever its body (C03.R6)
+    from rules import C03 as _C03
+    ctx.borrow(_C03, {"C03.R6": ("C01.R12", "perform_write: the pending value of a lane goes out before its synced marker, unconditionally (C03.R6)")})
     from rules import C06 as _C06
     ctx.borrow(_C06, {"C06.R1": ("C01.R11", "every item a handler step modified is collected for writing, also when the handlers it triggers fail (C06.R1)")})
